@@ -60,6 +60,20 @@ FIELDS = [
 ]
 BYTAG = {f.tag: f for f in FIELDS}
 
+# user-defined instantiations of the public define_gfgen! macro (the property quantifies over them); the type
+# is defined in the drivers' module by `prelude`.  Used by C05 (encoding length / strict decoding).
+def _gfgen_prelude(name, limbs):
+    return ("    pub struct %sParams;\n    impl %sParams { const MODULUS: [u64; %d] = [%s]; }\n"
+            "    crate::backend::define_gfgen!(%s, %sParams, %s_mod, false);\n"
+            % (name, name, len(limbs), ", ".join("0x%016X" % l for l in limbs), name, name, name.lower()))
+
+
+EXTRA_FIELDS = [
+    Field("gfgen256", "VGen256", 4, P256, "monty", 32, MONTY_OPS),
+]
+EXTRA_FIELDS[0].prelude = _gfgen_prelude("VGen256", [(P256 >> (64 * i)) & (2**64 - 1) for i in range(4)])
+BYTAG.update({f.tag: f for f in EXTRA_FIELDS})
+
 # op -> (arity, python spec on values, rust expression)
 OPSPEC = {
     "add": (2, lambda a, b, q: (a + b) % q, "x + y"),
@@ -107,9 +121,16 @@ def op_driver(f, op):
 
 def encode_driver(f):
     params = [("a", "in", 8, f.n), ("out", "out", 1, f.enc_len)]
+    # copied through a slice so that a change of the encoding length still compiles (drv_*_enclen reports it)
     body = ["        " + raw_in(f, "a"),
-            "        *out = x.encode();"]
+            "        let e = x.encode(); let m = if e.len() < %d { e.len() } else { %d };" % (f.enc_len, f.enc_len),
+            "        *out = [0u8; %d]; out[..m].copy_from_slice(&e[..m]);" % f.enc_len]
     return Driver("drv_%s_encode" % f.tag, params, "\n".join(body))
+
+
+def enclen_driver(f):
+    return Driver("drv_%s_enclen" % f.tag, [("a", "in", 8, f.n), ("olen", "out", 4, 1)],
+                  "        " + raw_in(f, "a") + "\n        olen[0] = x.encode().len() as u32;")
 
 
 def limbs_int(ws, bits=64):
